@@ -381,7 +381,24 @@ let case_readvalue r =
     (* loads are applied in order; the model's reader keeps the newest binding first *)
     let rd = List.fold_left (fun st (k, cs) -> loadChunks st k cs) [] loads in
     emit ~fn:"ReadValue" ~tag ~s ~m:(c_valres (readValue_m rd { vis = v; tail = t })) [ a_reader loads; hexf v; hexf t ] in
-  match rint r 6 with
+  match rint r 7 with
+  | 6 ->
+    (* ONE reader, two TOAST relations that both hold a value with the SAME value id (value OIDs are unique per TOAST relation
+       only), resolved one after the other in either order: each pointer must get its own relation's bytes (seeded change
+       C08-5: a cache keyed by the value id alone) *)
+    let rel2 = List.hd (near_ids rel) in
+    let out2, payload2, p2, kind2 = gen_stored r ~big:false id rel2 in
+    let own2 = chunks_of (zz id) (nat_of_int (gen_chunk_size r)) payload2 in
+    let table2 = List.map mchunk (shuffle r (own2 @ gen_foreign r id)) in
+    let expect2 = if kind2 = "plain" then c_val payload2 else if ptr_is_compressed p2 then c_val out2 else "-" in
+    let loads = shuffle r [ (zz rel, table); (zz rel2, table2) ] in
+    let rd = List.fold_left (fun st (k, cs) -> loadChunks st k cs) [] loads in
+    let first_a = rbool r in
+    let (pa, ea), (pb, eb) = if first_a then ((p, expect), (p2, expect2)) else ((p2, expect2), (p, expect)) in
+    let m = c_valres (readValue_m rd { vis = enc_ptr pa; tail = [] }) ^ ";" ^ c_valres (readValue_m rd { vis = enc_ptr pb; tail = [] })
+            ^ ";" ^ c_valres (readValue_m rd { vis = enc_ptr pa; tail = [] }) in
+    let s = if ea = "-" || eb = "-" then "-" else ea ^ ";" ^ eb ^ ";" ^ ea in
+    emit ~fn:"ReadValueSeq" ~tag:("rv_same_id_two_rels_" ^ kind ^ "_" ^ kind2) ~s ~m [ a_reader loads; hexf (enc_ptr pa); hexf (enc_ptr pb) ]
   | 0 | 1 -> run ~tag:("rv_" ^ kind) ~s:expect (shuffle r [ (zz rel, table); (other_rel, other) ]) (enc_ptr p @ rbytes r (rint r 3)) []
   | 2 -> (* the relation loaded twice: the later load replaces the earlier one *)
     run ~tag:"rv_reload" ~s:expect [ (zz rel, other); (other_rel, other); (zz rel, table) ] (enc_ptr p) (rbytes r 2)
